@@ -45,6 +45,16 @@ ARGS = {
  "C05_m5": ["C05", "--archs", "sse2,avx2", "--ops", "compress", "--types", "f64,i32"],
  "C09_m4": ["C09", "--archs", "ssse3,avx2", "--ops", "reduce_add", "--types", "i16,u16"],
  "C09_m5": ["C09", "--archs", "sse2,avx512f", "--ops", "reduce_min", "--types", "u32,i32,i64"],
+ # fourth round
+ "C18_m3": ["C18"], "C16_m3": ["C16", "--archs", "sse2", "--ops", "cmul"],
+ "C17_m3": ["C17", "--ops", "avg,avgr", "--types", "i8,i16,i32"], "C17_m4": ["C17", "--ops", "nearbyint_as_int"],
+ "C12_m3": ["C12"], "C12_m4": ["C12"],
+ "C04_m3": ["C04", "--archs", "avx,avx2", "--ops", "load_unaligned,load_aligned", "--types", "i8,i32,f32"],
+ "C02_m4": ["C02", "--archs", "sse2,avx512f", "--ops", "fnms"], "C02_m5": ["C02", "--archs", "avx512f,sse2", "--ops", "ldexp,frexp"],
+ "C06_m4": ["C06", "--archs", "sse2,avx2", "--ops", "batch_cast_to_f32,load_as_from_i32", "--types", "u32,f32"],
+ "C06_m5": ["C06", "--archs", "sse4_1", "--ops", "batch_cast_to_f64", "--types", "u64,i64"],
+ "C03_m4": ["C03", "--archs", "sse2,sse4_1", "--ops", "bool_eq,bool_neq", "--types", "f64,f32"],
+ "C04_m4": ["C03", "--archs", "sse2,avx512bw", "--ops", "bool_get", "--types", "i8,u16,i32"],
 }
 ids = sys.argv[1:] or sorted(d for d in os.listdir(os.path.join(V, "seeded")) if os.path.isdir(os.path.join(V, "seeded", d)))
 for i in ids:
